@@ -19,14 +19,8 @@ Section EvalDenotes.
     DeckSemReach.reach a root m -> OptimizePure.reach a root m.
   Proof. induction 1; [constructor | econstructor; eauto]. Qed.
 
-  (* a source DAG without oracles has no transformed-oracle node below the root *)
-  Lemma src_ok_noT (a : arena R) i : arena_wf a -> i < length a -> src_ok a i -> noT a i.
-  Proof.
-    intros Hwf Hi Hs j Hj.
-    (* noT quantifies over all ids <= i, src_ok only over reachable ones: this
-       direction needs reachability, so we use the optimiser theorem that takes
-       src_ok directly instead (see eval_denotes below) *)
-  Abort.
+  (* [noT] quantifies over all ids <= i, [src_ok] only over reachable ones, so [src_ok] does not imply
+     [noT]; [eval_denotes] below takes both. *)
 
   Theorem eval_denotes (a : arena R) i vars x y z :
     arena_wf a -> base_ok O a -> i < length a -> src_ok a i -> noT a i ->
